@@ -391,3 +391,104 @@ Proof.
   destruct t as [n c sl]. intros Hw. destruct (resolve_root_inv n c sl cs Hw) as [sl' [-> HN]].
   apply (node_obs n c sl sl' HN).
 Qed.
+
+(** * no single-child node appears *)
+Definition nss_item (x : einfo * utree) : Prop := wf_sub (snd x) = true /\ no_single_sub (snd x) = true.
+
+Lemma join2_nss a b : nss_item a -> nss_item b -> nss_item (join2 a b).
+Proof.
+  intros [Ha1 Ha2] [Hb1 Hb2]. unfold join2, regroup, nss_item. simpl snd. split.
+  - rewrite wf_sub_unfold. simpl. rewrite !reparent_wf_sub by auto. reflexivity.
+  - rewrite nss_unfold. simpl. rewrite !reparent_nss by auto. reflexivity.
+Qed.
+
+Lemma caterpillar_nss rest : forall a, nss_item a -> Forall nss_item rest -> nss_item (fold_left join2 rest a).
+Proof.
+  induction rest as [|b rest IH]; intros a Ha Hr; simpl; auto.
+  inversion Hr; subst. apply IH; auto. now apply join2_nss.
+Qed.
+
+Lemma resolve_here_nss sl cs :
+  n_up sl <= 1 -> length sl <> 2 -> Forall nss_item (kids_of sl) ->
+  length (resolve_here sl cs) <> 2 /\ Forall nss_item (kids_of (resolve_here sl cs)).
+Proof.
+  intros Hu Hl HF. destruct (le_lt_dec (length sl) 3) as [Hs|Hb].
+  - rewrite resolve_here_small by auto. auto.
+  - destruct (resolve_here_big sl cs Hu Hb) as [keep [a [rest [E [K1 [K2 [K3 K4]]]]]]].
+    rewrite E. split.
+    + rewrite app_length. simpl length. rewrite (length_slots keep), K1, K2. lia.
+    + assert (Hitems : Forall nss_item (kids_of keep ++ a :: rest)).
+      { eapply Permutation_Forall; [symmetry; exact K3|exact HF]. }
+      apply Forall_app in Hitems. destruct Hitems as [Hk Hit]. inversion Hit; subst.
+      rewrite kids_of_app. simpl. apply Forall_app. split; auto.
+      constructor; [|constructor]. now apply caterpillar_nss.
+Qed.
+
+Lemma rgo_nss sl :
+  Forall (fun s : slot => match s with
+                          | Some (_, c) => forall cs, wf_sub c = true -> no_single_sub c = true -> nss_item (e0, resolve c cs)
+                          | None => True end) sl ->
+  forallb (fun p => wf_sub (snd p)) (kids_of sl) = true ->
+  forallb (fun p => no_single_sub (snd p)) (kids_of sl) = true ->
+  forall cs, Forall nss_item (kids_of (rgo sl cs)).
+Proof.
+  induction sl as [|[[e ch]|] r IHr]; intros IH Hw Hs cs; simpl; [constructor| |].
+  - inversion IH as [|? ? Hc Hr]; subst. simpl in Hw, Hs.
+    apply andb_true_iff in Hw. destruct Hw as [Hw1 Hw2]. apply andb_true_iff in Hs. destruct Hs as [Hs1 Hs2].
+    constructor; [|apply IHr; auto]. exact (Hc _ Hw1 Hs1).
+  - inversion IH; subst. apply IHr; auto.
+Qed.
+
+Lemma nss_items_forallb ks : Forall nss_item ks -> forallb (fun p => no_single_sub (snd p)) ks = true.
+Proof. induction 1 as [|x l [_ H] _ IH]; simpl; auto. now rewrite H, IH. Qed.
+Lemma nss_items_wf ks : Forall nss_item ks -> forallb (fun p => wf_sub (snd p)) ks = true.
+Proof. induction 1 as [|x l [H _] _ IH]; simpl; auto. now rewrite H, IH. Qed.
+
+Lemma resolve_nss_sub : forall t cs, wf_sub t = true -> no_single_sub t = true -> nss_item (e0, resolve t cs).
+Proof.
+  induction t as [n c sl IH] using utree_ind'. intros cs Hw Hs.
+  destruct (resolve_sub (UNode n c sl) cs Hw) as [W _].
+  unfold nss_item. cbn [snd]. split; auto.
+  rewrite resolve_eq. rewrite wf_sub_unfold in Hw. rewrite nss_unfold in Hs.
+  apply andb_true_iff in Hw. destruct Hw as [Hu Hwk]. apply Nat.eqb_eq in Hu.
+  apply andb_true_iff in Hs. destruct Hs as [Hl Hsk]. apply negb_true_iff, Nat.eqb_neq in Hl.
+  destruct (rgo_shape sl cs) as [S1 S2].
+  destruct (resolve_here_nss (rgo sl cs)
+              (skipn (length (flat_map (fun s : slot => match s with Some (_, ch) => resolve_bounds ch | None => [] end) sl)) cs))
+    as [N1 N2]; try lia.
+  { now apply rgo_nss. }
+  rewrite nss_unfold. apply andb_true_iff. split; [now apply negb_true_iff, Nat.eqb_neq|now apply nss_items_forallb].
+Qed.
+
+Theorem resolve_no_single t cs : wf t = true -> no_single t = true -> no_single (resolve t cs) = true.
+Proof.
+  destruct t as [n c sl]. intros Hw Hs. rewrite resolve_eq. rewrite wf_unfold in Hw.
+  apply andb_true_iff in Hw. destruct Hw as [Hu Hwk]. apply Nat.eqb_eq in Hu.
+  unfold no_single, kids in *. simpl uslots in *.
+  destruct (rgo_shape sl cs) as [S1 S2].
+  set (cs' := skipn _ cs).
+  assert (HF : Forall nss_item (kids_of (rgo sl cs))).
+  { apply rgo_nss; auto. apply Forall_forall. intros [[e ch]|] _; auto. intros. now apply resolve_nss_sub. }
+  destruct (le_lt_dec (length (rgo sl cs)) 3) as [Hsm|Hb].
+  - rewrite resolve_here_small by auto. now apply nss_items_forallb.
+  - destruct (resolve_here_big (rgo sl cs) cs' ltac:(lia) Hb) as [keep [a [rest [E [K1 [K2 [K3 K4]]]]]]].
+    rewrite E.
+    assert (Hitems : Forall nss_item (kids_of keep ++ a :: rest)).
+    { eapply Permutation_Forall; [symmetry; exact K3|exact HF]. }
+    apply Forall_app in Hitems. destruct Hitems as [Hk Hit]. inversion Hit; subst.
+    rewrite kids_of_app. simpl. apply nss_items_forallb. apply Forall_app. split; auto.
+    constructor; [|constructor]. now apply caterpillar_nss.
+Qed.
+
+(** the root keeps two neighbours, or ends with three *)
+Theorem resolve_root_degree t cs :
+  wf t = true -> degree (resolve t cs) = Nat.min 3 (degree t).
+Proof.
+  destruct t as [n c sl]. intros Hw. rewrite resolve_eq. unfold degree. simpl uslots.
+  rewrite wf_unfold in Hw. apply andb_true_iff in Hw. destruct Hw as [Hu _]. apply Nat.eqb_eq in Hu.
+  destruct (rgo_shape sl cs) as [S1 S2]. set (cs' := skipn _ cs).
+  destruct (le_lt_dec (length (rgo sl cs)) 3) as [Hsm|Hb].
+  - rewrite resolve_here_small by auto. lia.
+  - destruct (resolve_here_big (rgo sl cs) cs' ltac:(lia) Hb) as [keep [a [rest [E [K1 [K2 _]]]]]].
+    rewrite E, app_length. simpl length. rewrite (length_slots keep), K1, K2. lia.
+Qed.
